@@ -6,3 +6,5 @@ GROUPS = [
 ]
 ASSUMPTIONS = ['deque operations by the owner-side contracts enforced under C02; thieves only take from the top',
                'the scheduler object is used only by its own kernel thread (C01 ownership)']
+# obligation groups of other properties' specifications that this property also rests on (its anchors name those files); see DESIGN.md 11.2
+IMPORTS = [dict(prop='C01', groups=['yield_switch', 'maintenance'])]
